@@ -238,13 +238,20 @@ func (x *Exec) model(st *State, fr *Frame, in *ssa.Call, callee *ssa.Function, a
 		case strings.HasPrefix(m, "PutUint"):
 			b, v := a(1), a(2)
 			x.oblige(st, fr, in, "idx", fmt.Sprintf("(<= %d (s_len %s))", width, b), "binary."+m+": slice too short")
+			// the bytes are the unique base-256 digits of v: fresh digits d_i in
+			// 0..255 with v == sum d_i*256^sh (linear, unlike div/mod chains)
+			var terms, rng []string
 			for i := 0; i < width; i++ {
 				sh := i
 				if big {
 					sh = width - 1 - i
 				}
-				x.heapStore(st, bt, "(s_reg "+b+")", fmt.Sprintf("(+ (s_off %s) %d)", b, i), fmt.Sprintf("(mod (div %s %s) 256)", v, pow2(8*sh).String()))
+				d := x.S.Const("dg", "Int")
+				rng = append(rng, "(<= 0 "+d+")", "(<= "+d+" 255)")
+				terms = append(terms, fmt.Sprintf("(* %s %s)", d, pow2(8*sh).String()))
+				x.heapStore(st, bt, "(s_reg "+b+")", fmt.Sprintf("(+ (s_off %s) %d)", b, i), d)
 			}
+			x.assume(st, And(append(rng, "(= "+v+" (+ "+strings.Join(terms, " ")+"))")...))
 			return Val{T: rt}, true
 		}
 		return Val{}, false
